@@ -58,6 +58,10 @@ def cases(ctx, budget):
     rng = ctx.rng
     env = harness.make_env(nondeterministic=True)
     seg = env.compile("$..*").segments[0]
+
+    class Echo:
+        def resolve(self, node): yield node
+    echo_seg = type(seg)(env=seg.env, token=seg.token, selectors=(Echo(),))
     nvals = (40 if ctx.quick else 1500) * budget
     cap = 3000 if ctx.quick else 40000
     for v in small_values(rng, nvals):
@@ -66,9 +70,10 @@ def cases(ctx, budget):
         cnt = 0
 
         def run(s, v=v):
+            # the visiting order is observed through the segment's resolve() with a selector that yields the visited node itself
             root = jp.JSONPathNode(value=v, location=(), root=v)
             try:
-                return [0, [nd.location for nd in seg._nondeterministic_visit(root)]]
+                return [0, [nd.location for nd in echo_seg.resolve([root])]]
             except jp.JSONPathRecursionError:
                 return [1, 6]
         for script, out in chooser.enumerate_outcomes(run, cap):
@@ -162,9 +167,12 @@ def cases(ctx, budget):
     #     (Spec/NondetQ.v), and, outcome by outcome, the model m_find_nd (Model/NdEval.v) run on the scripts of that outcome - regrouped per random
     #     episode and per segment - must return the same nodelist
     qtexts_d = ["$.*", "$[*]", "$.*.*", "$[*, *]", "$['a', *]", "$[?@]", "$[?@ != 1]", "$[?@.a]", "$.*[?@ != 1]", "$..*", "$..[?@ != 1]", "$..[*, 0]", "$..*.*",
-                "$.a.*", "$.*.a", "$[?count(@.*) > 0]", "$[?@.*]", "$[?@..a].*", "$..a.*", "$.*..*", "$[*][?@ != 2]", "$..[?@.a]", "$[?length(@) > 0].*"]
+                "$.a.*", "$.*.a", "$[?count(@.*) > 0]", "$[?@.*]", "$[?@..a].*", "$..a.*", "$.*..*", "$[*][?@ != 2]", "$..[?@.a]", "$[?length(@) > 0].*",
+                "$[*]..[*]", "$['a', 'b']..[*]", "$.a[*]..[0]"]
     dvals = [{"a": 1, "b": 2, "c": 3}, {"a": {"x": 1, "y": 2}, "b": {"z": 3}}, {"a": [1, 2], "b": {"a": 1}}, [{"a": 1, "b": 2}, {"a": 3}], [3, 1, 2], {"a": {"a": 1, "b": 2}},
-             {"a": {}, "b": [], "c": 1}, [[1, 2], {"a": 1, "b": 2}], {"a": {"a": {"a": 1, "b": 2}}, "b": 1}, {"a": 1}, [], {}, 7]
+             {"a": {}, "b": [], "c": 1}, [[1, 2], {"a": 1, "b": 2}], {"a": {"a": {"a": 1, "b": 2}}, "b": 1}, {"a": 1}, [], {}, 7,
+             # two input nodes of a descendant segment, each with containers below it: their results must not interleave
+             {"a": [[1]], "b": [[2]]}, [[[1]], [[2]]], {"a": [[[1]], [[2]]]}]
     regd = gen.enc_registry(gen.BUILTINS)
     nq = 0
     for v in dvals + [x for x in small_values(rng, (6 if ctx.quick else 150) * budget) if count_nodes(x) <= 6]:
